@@ -6,7 +6,9 @@ export CARGO_NET_OFFLINE=true
 python3 tools/extract.py
 python3 tools/rs2lean.py /repo lean/Plonk/GeneratedWidgets.lean
 python3 tools/gen_dispatch.py harness/src/dispatch.rs
-(cd lean && lake build Plonk driver)
+# every property module (so that no single check pays for a cold proof build) + the driver
+PROPS=$(ls lean/Plonk/Props/*.lean | sed 's#lean/Plonk/Props/\(.*\)\.lean#Plonk.Props.\1#')
+(cd lean && lake build Plonk $PROPS driver)
 (cd harness && cp -n /repo/Cargo.lock Cargo.lock 2>/dev/null || true; cargo build --offline --release && cargo build --offline --profile checked)
 (cd harness-alloc && cp -n /repo/Cargo.lock Cargo.lock 2>/dev/null || true; cargo build --offline --release)
 echo "setup ok"
